@@ -109,5 +109,11 @@ def build_cases(rng, n, addrs=None, names=None):
             else:
                 k = rng.choice("FFSTTTCCBBR")
                 ops.append(f"{k}:{name_field(rng.choice(names))}:{hexs(rng.choice(addrs))}")
+        if rng.random() < 0.15:
+            ops.insert(0, "W")      # the builder obtained from `MessageBuilder::default()`
+        cases.append("build\t" + ",".join(ops))
+    # ... with Bcc recipients in particular (the default builder drops the Bcc header like `Message::builder()` does)
+    for k in range(6):
+        ops = ["W", f"F:-:{hexs('f@x.y')}", f"T:-:{hexs('t@x.y')}", f"B:-:{hexs('hidden%d@x.y' % k)}"] + (["K"] if k % 2 else [])
         cases.append("build\t" + ",".join(ops))
     return cases
